@@ -248,6 +248,56 @@ func muxAnimCorpus(r *rand.Rand, n int) []namedFile {
 	return out
 }
 
+// muxLoneCorpus: Muxer outputs with exactly one frame and no display time - at the origin or at an (odd or even) offset,
+// with or without an explicit canvas, with or without metadata. Whatever container layout the muxer picks for them,
+// every view of the file reports the same canvas.
+func muxLoneCorpus(r *rand.Rand, n int) []namedFile {
+	var out []namedFile
+	for i := 0; len(out) < n && i < 4*n; i++ {
+		fw, fh := 1+r.Intn(40), 1+r.Intn(40)
+		o := webp.DefaultOptions()
+		o.Lossless = i%2 == 0
+		d, err := encode(img.Gen(r, img.Pick(r, img.Classes), pickS(r, "opaque", "binary", "gradient"), fw, fh), o)
+		if err != nil {
+			continue
+		}
+		chs := riffChunks(d)
+		bs := chs["VP8L"]
+		if bs == nil {
+			bs = chs["VP8 "]
+			if a, hasA := chs["ALPH"]; hasA && bs != nil {
+				bs = append(append([]byte{}, chunk("ALPH", a)...), bs...)
+			}
+		}
+		if bs == nil {
+			continue
+		}
+		m := mux.NewMuxer()
+		ox, oy := pickI(r, 0, 1, 1, 2, 3, 5, 8), pickI(r, 0, 0, 1, 2, 4)
+		if i%5 == 0 {
+			ox, oy = 0, 0
+		}
+		switch i % 3 {
+		case 0:
+			m.SetCanvasSize(ox+fw+r.Intn(6), oy+fh+r.Intn(6))
+		}
+		switch (i / 3) % 3 {
+		case 0:
+			m.SetEXIF([]byte("exif"))
+		case 1:
+			m.SetICCProfile([]byte("icc-odd"))
+		}
+		if m.AddFrame(bs, &mux.FrameOptions{OffsetX: ox, OffsetY: oy, BlendMode: mux.BlendMode(r.Intn(2))}) != nil {
+			continue
+		}
+		var b bytes.Buffer
+		if m.Assemble(&b) == nil {
+			out = append(out, namedFile{Name: "mux-lone", Data: b.Bytes()})
+		}
+	}
+	return out
+}
+
 // badFramesAnim: a well-formed animation container several of whose frames do not decode - the first one a large
 // lossless picture cut shortly before its end (fails late), a later one a lossy frame without its start code (fails
 // at once), the rest fine. Which error a frame-decoding call reports must not depend on who finishes first.
